@@ -19,7 +19,9 @@ RULE = ('Configuration enumeration: one fresh child process per TZ setting '
         'transition 1970..2106 of six DST zones at -3601 -1 0 +1 +3599 s, '
         'every hour of 2006 and 2038} x input forms (naive, aware UTC, three '
         'fixed offsets, ZoneInfo with both folds, struct_time with isdst 0/1/'
-        '-1). Oracle in each child: bytes == >Q of the absolute instant, '
+        '-1), and for three forms the same value as a Basic.Properties '
+        'timestamp and as a method-argument table value through frame.marshal'
+        '/unmarshal. Oracle in each child: bytes == >Q of the absolute instant, '
         'decoded value UTC-aware denoting it; the SHA-256 of the complete '
         'result table must be identical in all children. A case is (TZ, '
         'instant, form); non-trivial = TZ other than UTC.')
